@@ -376,6 +376,14 @@ def fixeddict(name, *entries, **kwargs):
 
     __dict__["update"] = update
 
+    def __ior__(self, other):
+        # In Python 3.9+ 'd |= other' calls dict.__ior__ which stores the new
+        # entries directly, bypassing __setitem__ (and so the key check).
+        self.update(other)
+        return self
+
+    __dict__["__ior__"] = __ior__
+
     def __repr__(self):
         return "{}({{{}}})".format(
             self.__class__.__name__,
